@@ -416,6 +416,18 @@ def check(ctx: Ctx):
     from . import c09
 
     c03._guarded(ctx, "R09.2", c09.check_crop_width)
+    # a flipped / padded copy of the caller's arrays is evaluated after the original: the arrays
+    # must come out of the first evaluation unchanged (R15.1)
+    from . import c15
+
+    c03._guarded(ctx, "R15.1", c15.check_no_input_mutation)
+    c03._guarded(ctx, "R15.1", c15.check_result_purity)
+    # results of later evaluations (another group, a flipped copy, the exchanged pair, a second
+    # threshold) are only meaningful if no step writes into the caller's arrays (R15.8)
+    from . import c15 as _c15
+    from . import c03 as _c03
+
+    _c03._guarded(ctx, "R15.8", _c15.check_param_aliasing)
 
 
 _N = "panoptica/utils/numpy_utils.py"
